@@ -1,3 +1,4 @@
+use crate::architecture::Endian;
 use crate::il::Expression as Expr;
 use crate::il::*;
 use crate::Error;
@@ -1047,9 +1048,21 @@ pub fn lw(
     Ok(())
 }
 
+/// The position of the byte at `address` within its aligned word, counted
+/// from the most-significant byte of the word as loaded from memory of the
+/// given endianness (0 = most significant, 3 = least significant).
+fn unaligned_lane(address: Expression, endian: Endian) -> Result<Expression, Error> {
+    let lane = Expr::and(address, expr_const(3, 32))?;
+    match endian {
+        Endian::Big => Ok(lane),
+        Endian::Little => Expr::xor(lane, expr_const(3, 32)),
+    }
+}
+
 pub fn lwl(
     control_flow_graph: &mut ControlFlowGraph,
     instruction: &capstone::Instr,
+    endian: Endian,
 ) -> Result<(), Error> {
     let detail = details(instruction)?;
 
@@ -1063,29 +1076,25 @@ pub fn lwl(
 
         let address = Expr::add(base, offset)?;
 
-        // get the number of bits to clear
-        let bytes_to_clear = Expr::sub(
-            expr_const(4, 32),
-            Expr::and(expr_const(3, 32), address.clone())?,
-        )?;
-        let bits_to_clear = Expr::shl(bytes_to_clear, expr_const(3, 32))?;
-
-        // get the number of bytes to shift the result
-        let bytes_to_shift = Expr::and(expr_const(3, 32), address.clone())?;
-        let bits_to_shift = Expr::shl(bytes_to_shift, expr_const(3, 32))?;
-
+        // load the aligned word which holds the addressed byte
         let tmp = Scalar::temp(instruction.address, 32);
-        block.load(tmp.clone(), address);
+        block.load(
+            tmp.clone(),
+            Expr::and(expr_const(0xffff_fffc, 32), address.clone())?,
+        );
 
-        // clear the dst register by shifting left then right
-        let dst_expr = Expr::shl(dst.clone().into(), bits_to_clear.clone())?;
-        let dst_expr = Expr::shr(dst_expr, bits_to_clear)?;
-
-        // zero out the right bits in the loaded word
-        let tmp = Expr::shl(Expr::shr(tmp.into(), bits_to_shift.clone())?, bits_to_shift)?;
-
-        // or together
-        let dst_expr = Expr::or(dst_expr, tmp)?;
+        // the addressed byte becomes the most-significant byte of dst, the
+        // bytes which follow it in the word (towards the least-significant
+        // byte) come along, the low bits of dst are kept
+        let shift_bits = Expr::shl(unaligned_lane(address, endian)?, expr_const(3, 32))?;
+        let keep = Expr::sub(
+            Expr::shl(expr_const(1, 32), shift_bits.clone())?,
+            expr_const(1, 32),
+        )?;
+        let dst_expr = Expr::or(
+            Expr::shl(tmp.into(), shift_bits)?,
+            Expr::and(dst.clone().into(), keep)?,
+        )?;
 
         block.assign(dst, dst_expr);
 
@@ -1101,6 +1110,7 @@ pub fn lwl(
 pub fn lwr(
     control_flow_graph: &mut ControlFlowGraph,
     instruction: &capstone::Instr,
+    endian: Endian,
 ) -> Result<(), Error> {
     let detail = details(instruction)?;
 
@@ -1112,28 +1122,29 @@ pub fn lwr(
     let block_index = {
         let block = control_flow_graph.new_block()?;
 
-        let address = Expr::sub(Expr::add(base, offset)?, expr_const(3, 32))?;
+        let address = Expr::add(base, offset)?;
 
-        // create a bit mask for dst and the loaded result
-        let mask_bytes = Expr::and(address.clone(), expr_const(3, 32))?;
-        let mask_bits = Expr::shl(mask_bytes, expr_const(3, 32))?;
-        let mask_bit = Expr::shl(expr_const(1, 32), mask_bits)?;
-        let mask = Expr::sub(mask_bit, expr_const(1, 32))?;
-
-        // load our word from memory
+        // load the aligned word which holds the addressed byte
         let tmp = Scalar::temp(instruction.address, 32);
-        block.load(tmp.clone(), address);
+        block.load(
+            tmp.clone(),
+            Expr::and(expr_const(0xffff_fffc, 32), address.clone())?,
+        );
 
-        // we want to and this word with our mask to remove the high bits
-        let temp = Expr::and(tmp.into(), mask.clone())?;
-
-        // and out the bits we're about to set in dst
-        let dst_expr = Expr::and(
-            dst.clone().into(),
-            Expr::sub(expr_const(0xffff_ffff, 32), mask)?,
+        // the addressed byte becomes the least-significant byte of dst, the
+        // bytes which precede it in the word come along, the high bits of dst
+        // are kept
+        let lane = unaligned_lane(address, endian)?;
+        let shift_bits = Expr::shl(
+            Expr::sub(expr_const(3, 32), lane.clone())?,
+            expr_const(3, 32),
         )?;
-
-        let dst_expr = Expr::or(dst_expr, temp)?;
+        let keep_bits = Expr::shl(Expr::add(lane, expr_const(1, 32))?, expr_const(3, 32))?;
+        let keep = Expr::shl(expr_const(0xffff_ffff, 32), keep_bits)?;
+        let dst_expr = Expr::or(
+            Expr::shr(tmp.into(), shift_bits)?,
+            Expr::and(dst.clone().into(), keep)?,
+        )?;
 
         block.assign(dst, dst_expr);
 
@@ -2406,6 +2417,7 @@ pub fn sw(
 pub fn swl(
     control_flow_graph: &mut ControlFlowGraph,
     instruction: &capstone::Instr,
+    endian: Endian,
 ) -> Result<(), Error> {
     let detail = details(instruction)?;
 
@@ -2418,38 +2430,23 @@ pub fn swl(
         let block = control_flow_graph.new_block()?;
 
         let address = Expr::add(base, offset)?;
+        let aligned = Expr::and(expr_const(0xffff_fffc, 32), address.clone())?;
 
-        // load the value currently in memory
+        // load the aligned word currently in memory
         let tmp = Scalar::temp(instruction.address, 32);
-        block.load(
-            tmp.clone(),
-            Expr::and(expr_const(0xffff_fffc, 32), address.clone())?,
-        );
+        block.load(tmp.clone(), aligned.clone());
 
-        // create a mask for our value
-        let mask_bytes = Expr::and(address.clone(), expr_const(3, 32))?;
-        // we want the opposite of the number of bytes we are storing
-        let mask_bytes = Expr::sub(expr_const(4, 32), mask_bytes)?;
-        let mask_bits = Expr::shl(mask_bytes, expr_const(3, 32))?;
-
-        let mask = Expr::sub(Expr::shl(expr_const(1, 32), mask_bits)?, expr_const(1, 32))?;
-
-        // and the loaded value with our mask
-        // this operation inverts the mask
-        let tmp = Expr::and(Expr::sub(expr_const(0xffff_ffff, 32), mask)?, tmp.into())?;
-
-        // figure out how many bits we should shift our value right
-        let shift_bytes = Expr::and(address.clone(), expr_const(3, 32))?;
-        let shift_bits = Expr::shl(shift_bytes, expr_const(3, 32))?;
-
-        // shift the value right
-        let rt = Expr::shr(rt, shift_bits)?;
-
-        // or them together
-        let expr = Expr::or(tmp, rt)?;
+        // the most-significant byte of rt goes to the addressed byte, the
+        // bytes which follow it go to the following (less significant) bytes
+        // of the word, the more significant bytes of the word are kept
+        let lane = unaligned_lane(address, endian)?;
+        let shift_bits = Expr::shl(lane.clone(), expr_const(3, 32))?;
+        let keep_bits = Expr::shl(Expr::sub(expr_const(4, 32), lane)?, expr_const(3, 32))?;
+        let keep = Expr::shl(expr_const(0xffff_ffff, 32), keep_bits)?;
+        let expr = Expr::or(Expr::shr(rt, shift_bits)?, Expr::and(tmp.into(), keep)?)?;
 
         // store it back in memory
-        block.store(Expr::and(expr_const(0xffff_fffc, 32), address)?, expr);
+        block.store(aligned, expr);
 
         block.index()
     };
@@ -2463,6 +2460,7 @@ pub fn swl(
 pub fn swr(
     control_flow_graph: &mut ControlFlowGraph,
     instruction: &capstone::Instr,
+    endian: Endian,
 ) -> Result<(), Error> {
     let detail = details(instruction)?;
 
@@ -2474,32 +2472,26 @@ pub fn swr(
     let block_index = {
         let block = control_flow_graph.new_block()?;
 
-        let address = Expr::sub(Expr::add(base, offset)?, expr_const(3, 32))?;
+        let address = Expr::add(base, offset)?;
+        let aligned = Expr::and(expr_const(0xffff_fffc, 32), address.clone())?;
 
-        // create a bit mask for dst and the loaded result
-        let mask_bytes = Expr::and(address.clone(), expr_const(3, 32))?;
-        let mask_bits = Expr::shl(mask_bytes, expr_const(3, 32))?;
-        let mask_bit = Expr::shl(expr_const(1, 32), mask_bits)?;
-        let mask = Expr::sub(mask_bit, expr_const(1, 32))?;
-
-        // load our word from memory
+        // load the aligned word currently in memory
         let tmp = Scalar::temp(instruction.address, 32);
-        block.load(tmp.clone(), address.clone());
+        block.load(tmp.clone(), aligned.clone());
 
-        // zero out the words we're about to set in dst
-        let dst_expr = Expr::and(
-            tmp.into(),
-            Expr::sub(expr_const(0xffff_ffff, 32), mask.clone())?,
+        // the least-significant byte of rt goes to the addressed byte, the
+        // bytes which precede it go to the preceding (more significant) bytes
+        // of the word, the less significant bytes of the word are kept
+        let lane = unaligned_lane(address, endian)?;
+        let shift_bits = Expr::shl(Expr::sub(expr_const(3, 32), lane)?, expr_const(3, 32))?;
+        let keep = Expr::sub(
+            Expr::shl(expr_const(1, 32), shift_bits.clone())?,
+            expr_const(1, 32),
         )?;
-
-        // zero out the bits we're not setting in rt
-        let rt = Expr::and(rt, mask)?;
-
-        // or the two together
-        let dst_expr = Expr::or(dst_expr, rt)?;
+        let expr = Expr::or(Expr::shl(rt, shift_bits)?, Expr::and(tmp.into(), keep)?)?;
 
         // store it back in memory
-        block.store(address, dst_expr);
+        block.store(aligned, expr);
 
         block.index()
     };
